@@ -405,6 +405,7 @@ pub fn gen_source(seed: u64, i: usize) -> String {
     k.big_literals = false;
     k.hex = false;
     k.array_init_permille = 400;
+    k.odd_names = r.chance(1, 2);
     let d = gen::gen_single_def(&mut r, &k);
     gen::render_def(&d)
 }
